@@ -403,9 +403,12 @@ def dispatch (line : String) : String :=
     let r :=
       if fn.startsWith "c14." || fn.startsWith "o.c14." then c14 fn args
       else if fn.startsWith "c07.corrupt" || fn.startsWith "o.c07.corrupt" || fn.startsWith "w.c07." || fn.startsWith "c07.skip" || fn.startsWith "o.c07.skip" then tp fn args
+      else if fn.startsWith "c07.book" || fn.startsWith "o.c07.book" then c11 fn args
       else if fn.startsWith "c07." || fn.startsWith "o.c07." then c07 fn args
+      else if fn.startsWith "c03.reject" || fn.startsWith "o.c03.reject" then pg fn args
       else if fn.startsWith "c03." || fn.startsWith "o.c03." then c03 fn args
       else if fn.startsWith "c13." || fn.startsWith "o.c13." then c13 fn args
+      else if fn.startsWith "c12.refer" || fn.startsWith "o.c12.refer" then pg fn args
       else if fn.startsWith "c12.contig" || fn.startsWith "o.c12.contig" then tp fn args
       else if fn.startsWith "c12." || fn.startsWith "o.c12." then c12 fn args
       else if fn.startsWith "c20." || fn.startsWith "o.c20." then c20 fn args
